@@ -744,4 +744,58 @@ HARNESSES.append(
             stubs=["stroke run / layer / sidecar records = attribute bags; create_stroke reduced to its contract (a run record with "
                    "origin, length, order and the border); object store stub"],
             patches=[(modelmod, "TSTArchives", FAKE_TST), (modelmod, "TSPMessages", FAKE_TSP)]))
+
+
+# ------------------------------------------------------------------------------------------------ one stroke, written and read
+F32_FIELDS.add("width")
+
+
+class Ctor:
+    """a protobuf message class whose instances are attribute bags (nested enums etc. come from the real class)"""
+
+    def __init__(self, real):
+        self._real = real
+
+    def __call__(self, **kw):
+        return Msg(kw)
+
+    def __getattr__(self, name):
+        return getattr(self._real, name)
+
+
+class StrokeIO:
+    """self for the real create_stroke (what save writes for a stroke) and stroke_type (what open reads)"""
+    create_stroke = _NumbersModel.create_stroke
+    stroke_type = _NumbersModel.stroke_type
+
+
+def h15h_stroke_record(w4, red, style, origin, length, order):
+    """a border written as a stroke run by the real create_stroke and read the way extract_strokes_in_layers reads it:
+    width, colour, line style, extent and ordering stamp come back as given"""
+    from numbers_parser.model import rgb
+    assume(0 <= w4 <= 400 and 0 <= red <= 255 and 0 <= origin <= 999 and 1 <= length <= 1000 and 0 <= order <= 10 ** 6)
+    b = Border(w4 / 4, RGB(red, 20, 30), style)
+    b._order = order
+    run = StrokeIO().create_stroke(origin, length, b)
+    assert run.origin == origin and run.length == length and run.order == order
+    back = Border(width=round(run.stroke.width, 2), color=rgb(run.stroke.color), style=StrokeIO().stroke_type(run), _order=run.order)
+    assert back.width == b.width
+    assert back.color == b.color
+    assert back.style == b.style
+
+
+FAKE_TSD_H = ModProxy(modelmod.TSDArchives, StrokePatternArchive=Ctor(modelmod.TSDArchives.StrokePatternArchive),
+                      StrokeArchive=Ctor(modelmod.TSDArchives.StrokeArchive))
+FAKE_TSP_H = ModProxy(TSPMessages, Color=Ctor(TSPMessages.Color))
+FAKE_TST_H = ModProxy(TSTArchives, StrokeLayerArchive=Rec(StrokeRunArchive=Ctor(TSTArchives.StrokeLayerArchive.StrokeRunArchive)))
+HARNESSES.append(
+    Harness("H15h", h15h_stroke_record,
+            dict(w4=IntDom(), red=IntDom(), style=Cases(["solid", "dashes", "dots", "none"]), origin=IntDom(), length=IntDom(), order=IntDom()),
+            bounds="width any multiple of 1/4 up to 100, red component 0..255 (one path per value), the four line styles, origin "
+                   "0..999, length 1..1000, ordering stamp up to 10^6 (symbolic)",
+            stubs=["StrokePatternArchive / StrokeArchive / Color / StrokeRunArchive constructors = attribute bags; `float` fields "
+                   "keep binary32 values (m_f32)"],
+            outside=["widths binary32 cannot hold (read back rounded to 2 decimals)", "the protobuf bytes"],
+            models={f32: m_f32},
+            patches=[(modelmod, "TSDArchives", FAKE_TSD_H), (modelmod, "TSPMessages", FAKE_TSP_H), (modelmod, "TSTArchives", FAKE_TST_H)]))
 PROPERTY = "C15"
